@@ -60,6 +60,16 @@ Shortest == Accepts(f, a) =>
 Injective == (a # b /\ Accepts(f, a) /\ Accepts(f, b)) => SEnc(f, a) # SEnc(f, b)
 (* C05 on the specification: adjacent elements of the sorted domain; the
    order on all of B follows by transitivity of lexicographic order *)
+\* bridge to TaggedMath.tla (Apalache, all 2^64 values): the arithmetic form it reasons about -- first byte and
+\* payload read as one big-endian number, the two-byte form as 241*256 + v - 240 -- denotes these very bytes
+KeyBytes(v) ==
+  LET n == TaggedLen(v) IN
+  CASE n = 1 -> << v[1] >>
+    [] n = 2 -> BEBytes(Add(v, W(241 * 256 - 240)), 2)
+    [] n = 3 -> << 249 >> \o BEBytes(Sub(v, W(2288)), 2)
+    [] OTHER -> << 246 + n >> \o BEBytes(v, n - 1)
+KeyBridge == f = "tagged" => KeyBytes(a) = TaggedEnc(a)
+
 TaggedOrder == (f = "tagged" /\ a # b) =>
                  /\ Memcmp(TaggedEnc(a), TaggedEnc(b)) = -1
                  /\ Memcmp(TaggedEnc(b), TaggedEnc(a)) = 1
